@@ -1,4 +1,5 @@
 """C16 — id sets / id maps: canonical-form clauses (no empty per-client entry, raw constructor ownership)."""
+import re
 from ylib import facts as F
 from .common import *  # noqa
 
@@ -128,7 +129,59 @@ def rule_b(R, ctx):
     R.floor("C16.b", "raw accessor users", n, 8)
 
 
+def rule_c(R, ctx):
+    Y = ctx.yrs
+    R.rule("C16.c", "R-GUARD same element (belief rule, 7 of 7 sites on the pinned tree): in the interval-list algorithms of "
+                    "yrs::ids / yrs::id_set every store into element k of the sorted range list (`list[k].start = ..`, "
+                    "`list[k].end = ..`) is decided by a condition that reads element k itself — a trim or coalesce that tests one "
+                    "entry and rewrites another turns ids that were never inserted into members (or drops members)")
+    n = 0
+    for p, fn in sorted(Y.fns.items()):
+        if not (p.startswith("yrs::ids::") or p.startswith("yrs::id_set::")) or not fn.mir:
+            continue
+        v = FnView(fn)
+
+        def key(t):
+            t = simp_deep(t)
+
+            def norm(t):
+                if isinstance(t, tuple):
+                    if t and t[0] == "call":
+                        return ("call", t[1], tuple(norm(simp_deep(a)) for a in t[2]))
+                    return tuple(norm(x) for x in t)
+                return t
+            return show(norm(t), 12)
+        k = 0
+        for i, j, st in fn.stmts():
+            d = st["dst"]
+            if not (isinstance(d, dict) and d["p"] and d["p"][0] == "*" and isinstance(d["p"][-1], str)
+                    and re.search(r"Range\.(start|end)$", d["p"][-1])):
+                continue
+            df = mir_def(fn, {"c": d["l"]})
+            if not (df and df[0] == "call" and re.search(r"IndexMut.*::index_mut$", df[1].name) and len(df[1].args) == 2):
+                continue
+            n += 1
+            idx = mir_value_key(fn, df[1].args[1])
+            reads = set()
+            calls_by_bb = {c.bb: c for c in fn.calls()}
+            for l in v.guards(i):
+                for t in walk(l.term):
+                    if t[0] == "call" and re.search(r"Index(<.*>)?>?::index$", t[1]) and len(t[2]) == 2 and len(t) > 3:
+                        c = calls_by_bb.get(t[3])
+                        if c is not None and len(c.args) == 2:
+                            reads.add(mir_value_key(fn, c.args[1]))
+            shown = sshow(v.arg(df[1], 1, 8), 4)
+            site = "store:%s#%d" % (d["p"][-1].rsplit(".", 1)[-1], k)
+            k += 1
+            R.ob("C16.c", fn, site, idx in reads,
+                 "element [%s] is rewritten under a condition that reads it" % shown if idx in reads else
+                 "element [%s] is rewritten, but no condition that decides it reads that element (%d other element read(s))" % (shown, len(reads)),
+                 "%s:%s" % (fn.file, st["line"]))
+    R.floor("C16.c", "stores into list elements", n, 7)
+
+
 def check(ctx, R):
     R.run("C16.a", rule_a, ctx)
     R.run("C16.b", rule_b, ctx)
+    R.run("C16.c", rule_c, ctx)
     return {}
